@@ -15,6 +15,7 @@ import ZepidVerif.Lemmas.Generalize
 import ZepidVerif.Props.C16
 import ZepidVerif.Lemmas.TmleDR
 import ZepidVerif.Props.C03
+import ZepidVerif.Lemmas.BoundUnreached
 import Mathlib.Algebra.Order.Field.Rat
 import Mathlib.Tactic.NormNum
 set_option linter.unusedSectionVars false
@@ -200,6 +201,66 @@ theorem tmle_saturated (σ lg : F → F) (l : List (Row F)) (S : List Nat) (hS :
   obtain ⟨a, b⟩ := tmle_dr_treatment σ lg l S hS hpos hw Q p hp q hq e1 e2 h1 h0
   refine ⟨?_, ?_⟩ <;> simp only [Tmle.rrOf, Tmle.orOf, t, a, b, Nat.cast_one]
 
+/-! ### Truncation bounds (round 4)
+
+`TMLE.outcome_model(bound=…)` clips the initial outcome predictions, `AIPSW.treatment_model(bound=…)` the fitted
+treatment probabilities (`Bounds.applyB` on the interval `Bounds.estimatorBound` parses from the argument: a float, or
+entries 0 and 1 of a collection). -/
+
+/-- **TMLE, treatment model saturated, initial outcome predictions truncated**: a truncated `Q` is one more function of
+    (stratum, arm), so however hard the bound bites the plug-in risks are the standardized risks. -/
+theorem tmle_dr_treatment_truncated (σ lg : F → F) (l : List (Row F)) (S : List Nat) (hS : Strata l S)
+    (hpos : Positivity l S) (hw : ∀ r ∈ l, r.w = 1) (Q : Nat → Bool → F) (iv : Option (F × F))
+    (p : Nat → F) (hp : PropFit l S p) (q : Nat → Bool → F) (hq : MissFit l S q) (e1 e2 : F) :
+    let Qb := fun s a => Bounds.applyB iv (Q s a)
+    let g1 := fun s => p s * q s true
+    let g0 := fun s => (1 - p s) * q s false
+    Tmle.eff1 σ lg e1 (l.map (toT Qb g1 g0)) = 0 → Tmle.eff0 σ lg e2 (l.map (toT Qb g1 g0)) = 0 →
+    Tmle.risk1Of (Tmle.targets σ lg e1 e2 (l.map (toT Qb g1 g0))) = std l S Tgt.pop.mem true ∧
+    Tmle.risk0Of (Tmle.targets σ lg e1 e2 (l.map (toT Qb g1 g0))) = std l S Tgt.pop.mem false :=
+  tmle_dr_treatment σ lg l S hS hpos hw (fun s a => Bounds.applyB iv (Q s a)) p hp q hq e1 e2
+
+/-- **TMLE, outcome model saturated, a bound on the outcome predictions that the cell means do not reach** (and any
+    positive treatment probabilities): the clipped predictions are still the saturated fit, so `tmle_dr_outcome` applies. -/
+theorem tmle_dr_outcome_unreached_bound (σ lg : F → F) (hσ : StrictMono σ) (l : List (Row F)) (S : List Nat)
+    (hS : Strata l S) (hS0 : S ≠ []) (hpos : Positivity l S) (hw : ∀ r ∈ l, r.w = 1) (Q : Nat → Bool → F)
+    (hQ : OutFit l S Q) (iv : Option (F × F))
+    (hun : ∀ lo hi, iv = some (lo, hi) → ∀ s ∈ S, ∀ a, lo ≤ Q s a ∧ Q s a ≤ hi)
+    (hσlg : ∀ s ∈ S, ∀ a, σ (lg (Q s a)) = Q s a) (g1 g0 : Nat → F) (hg1 : ∀ s, 0 < g1 s) (hg0 : ∀ s, 0 < g0 s)
+    (e1 e2 : F) :
+    let Qb := fun s a => Bounds.applyB iv (Q s a)
+    Tmle.eff1 σ lg e1 (l.map (toT Qb g1 g0)) = 0 → Tmle.eff0 σ lg e2 (l.map (toT Qb g1 g0)) = 0 →
+    e1 = 0 ∧ e2 = 0 ∧
+    Tmle.risk1Of (Tmle.targets σ lg e1 e2 (l.map (toT Qb g1 g0))) = std l S Tgt.pop.mem true ∧
+    Tmle.risk0Of (Tmle.targets σ lg e1 e2 (l.map (toT Qb g1 g0))) = std l S Tgt.pop.mem false := by
+  intro Qb h1 h0
+  have hid : ∀ s ∈ S, ∀ a, Qb s a = Q s a := fun s hs a =>
+    Bounds.applyB_unreached iv (Q s a) (fun lo hi e => hun lo hi e s hs a)
+  have hQb : OutFit l S Qb := fun s hs a => by rw [hid s hs a]; exact hQ s hs a
+  have hσb : ∀ s ∈ S, ∀ a, σ (lg (Qb s a)) = Qb s a := fun s hs a => by rw [hid s hs a]; exact hσlg s hs a
+  exact tmle_dr_outcome σ lg hσ l S hS hS0 hpos hw Qb hQb hσb g1 g0 hg1 hg0 e1 e2 h1 h0
+
+/-- **AIPSW, sampling and treatment models saturated, unstabilized weights, a treatment bound that the fitted
+    treatment probabilities do not reach** -- the weights are those `iptw_calculator` builds from the clipped
+    denominator and the clipped numerator (`Bounds.iptwRow`; the unstabilized numerator is the constant 1, which the
+    bound does move, and which the unstabilized weight formula does not read): any outcome predictions. -/
+theorem aipsw_dr_weights_unreached_bound (l : List (Row F)) (S : List Nat) (hS : Strata l S) (hpos : Positivity l S)
+    (generalize : Bool) (Q : Nat → Bool → F) (a : Bool)
+    (π : Nat → F) (hπ : SampFit l S π) (p : Nat → F) (hp : PropFitS l S p) (iv : Option (F × F))
+    (hun : ∀ lo hi, iv = some (lo, hi) → ∀ s ∈ S, lo ≤ p s ∧ p s ≤ hi) :
+    aipsw generalize l (fun r => Q r.s)
+        (aipswOmega generalize false (fun _ => 1) (fun r => π r.s)
+          (fun r => (Bounds.iptwRow false "population" iv r.a 1 (p r.s)).2.2)) a
+      = std l S (genTarget generalize) a := by
+  rw [← aipsw_dr_weights_partial l S hS hpos generalize Q a π hπ p hp]
+  have hps : ∀ r ∈ l, Bounds.applyB iv (p r.s) = p r.s := fun r hr =>
+    Bounds.applyB_unreached iv (p r.s) (fun lo hi e => hun lo hi e r.s (hS.2 r hr))
+  unfold aipsw
+  congr 2
+  apply sumIf_congr; intro r hr
+  simp only [aipswOmega, popTreatWeight, Bounds.iptwRow, hps r hr, Gen.iptw_weight]
+  simp
+
 /-! ### Non-vacuity: a concrete data set on which the hypotheses of the double-robustness theorems hold
 
 2 strata × 2 arms, unit weights, complete outcomes.  The *misspecified* halves are deliberately wrong: treatment
@@ -239,6 +300,15 @@ example : Tmle.eff1 id id 0 (exD.map (toT exQ (fun _ => 1/2) (fun _ => 1/3))) = 
   · norm_num [Tmle.eff1, Tmle.obsRows, Tmle.ind, Tmle.qstar1, toT, exD, exQ, sumBy]
   · norm_num [Tmle.eff0, Tmle.obsRows, Tmle.ind, Tmle.qstar0, toT, exD, exQ, sumBy]
   · norm_num [std, Ntgt, cellMean, exD, W, WY, sumIf, sumBy, inCell, inStratum, Tgt.mem]
+
+/-- the outcome bound (1/4, 1, 1/2) -- three entries, the third ignored -- is not reached by the saturated fit `exQ`
+    (cell means 1/2 and 1), and the bound [2/5, 3/5] bites on it: both kinds of hypothesis are satisfiable -/
+example : Bounds.estimatorBound false (.seq [some (1/4 : ℚ), some 1, some (1/2)]) = .ok (some (1/4, 1)) ∧
+    (∀ s ∈ [0, 1], ∀ a, (1/4 : ℚ) ≤ exQ s a ∧ exQ s a ≤ 1) ∧
+    Bounds.applyB (some ((2/5 : ℚ), 3/5)) (exQ 0 false) = 3/5 := by
+  refine ⟨by norm_num [Bounds.estimatorBound, Bounds.parseBound], ?_, by norm_num [Bounds.applyB, Bounds.clip1, exQ]⟩
+  intro s hs a; simp only [List.mem_cons, List.not_mem_nil, or_false] at hs
+  rcases hs with rfl | rfl <;> cases a <;> norm_num [exQ]
 
 /-! ### Witnesses -/
 
